@@ -483,3 +483,265 @@ def s_add_unbounded(ctx):
 
 SCENARIOS.append(Scenario("C09.folding.add[any length]", s_add_unbounded, F("add", "add.get_dim_value", "OptimizerState.get_shape_value", "OptimizerState.get_sym_value"),
                           trusted=TRUST))
+
+
+# ------------------------------------------------------------------ concat ---------------------
+
+def s_concat(ctx, mode, n):
+    """Concat: Identity for one operand; operands removed only when statically empty along the axis; the recorded
+    shape value (axis 0, every operand a known shape value) is the concatenation."""
+    import onnx_ir as ir
+    I = Interp(ctx)
+    W = World(I)
+    state = new_state(I)
+    axis = [None, 0, 1, -1, 3][ctx.choose(5, "axis attribute")]
+    ops, rts, elems = [], [], []
+    small = n >= 3
+    for i in range(n):
+        if mode == 0:
+            static, rt = choose_shape(ctx, W, f"x{i}", max_rank=(1 if small else 2), kinds=(["int", "N"] if small else ["int", "N", "unknown"]))
+            v = W.value(f"x{i}", dims=static, rt=rt, dtype=ir.DataType.FLOAT)
+            v.static = static
+            ops.append(v)
+            rts.append(rt)
+        else:
+            v, el, how = shape_like_value(ctx, W, I, state, f"s{i}", max_len=(1 if small else 2))
+            v.static = W.dims_of(v.fields["shape"])
+            ops.append(v)
+            rts.append(None)
+            elems.append(el)
+    node = W.node("Concat", ops, attrs=({} if axis is None else {"axis": axis}))
+    op = OpRecorder()
+    try:
+        r = run_eval(I, _cf().concat, node, op, state)
+    except PyRaise as e:
+        ctx.check("C04.folding.concat.never_raises", False, CL04)
+        return
+    out = node.fields["outputs"][0]
+    if r is not None:
+        ok = isinstance(r, Call) and r.op in ("Identity", "Concat")
+        ctx.check("C03.folding.concat.replacement_is_identity_or_concat", ok, CL09)
+        if not ok:
+            return
+        kept = list(r.args)
+        # kept operands: a subsequence of the operands, in order
+        it = iter(ops)
+        sub = all(any(k is o for o in it) for k in kept)
+        ctx.check("C03.folding.concat.kept_operands_are_a_subsequence_of_the_operands", sub and len(kept) >= 1, CL09)
+        if r.op == "Concat":
+            ctx.check("C03.folding.concat.keeps_the_axis", set(r.kwargs) == {"axis"} and r.kwargs["axis"] == axis, CL09)
+        removed = [o for o in ops if not any(o is k for k in kept)]
+        if r.op == "Identity" and n > 1:
+            removed = [o for o in ops]  # every operand must be empty: Identity(first) has the summed (zero) extent
+        for o in removed:
+            # statically empty along the axis for every binding: a static int 0 at that position
+            okz = axis is not None and o.static is not None and -len(o.static) <= axis < len(o.static)
+            if okz:
+                d = o.static[axis]
+                m = W.mean(d)
+                okz = m is not None
+                if okz:
+                    ctx.check("C09.folding.concat.removed_operand_is_empty_along_the_axis_for_every_binding", m == 0, CL09)
+            if not okz:
+                ctx.check("C09.folding.concat.removed_operand_is_empty_along_the_axis_for_every_binding", False, CL09)
+        return
+    sv = I.call(I.getattr(state, "get_sym_value"), [out])
+    if sv is not None:
+        ok = mode == 1 and axis == 0 and all(e is not None for e in elems) and isinstance(sv, (SObj, ir.Shape))
+        ctx.check("C09.folding.concat.records_a_value_only_for_axis0_concat_of_known_shape_values", ok, CL09)
+        if ok:
+            flat = [t for e in elems for t in e]
+            dims = W.dims_of(sv)
+            ctx.check("C09.folding.concat.recorded_value_has_the_total_length", len(dims) == len(flat), CL09)
+            if len(dims) == len(flat):
+                for d, t in zip(dims, flat):
+                    m = W.mean(d)
+                    if m is None:
+                        continue
+                    ctx.check("C09.folding.concat.recorded_entry_is_the_concatenated_entry", m == t, CL09)
+
+
+# ------------------------------------------------------------------ identity / propagate -------
+
+def s_identity(ctx):
+    """Identity: backward shape inference keeps the input annotation sound (given both annotations are sound and
+    Identity copies its input), the output is recorded as an alias of the input."""
+    import onnx_ir as ir
+    I = Interp(ctx)
+    W = World(I)
+    state = new_state(I)
+    r_in = [None, 0, 1, 2][ctx.choose(4, "rank of the input annotation")]
+    r_out = [None, 0, 1, 2][ctx.choose(4, "rank of the output annotation")]
+    rank = r_in if r_in is not None else (r_out if r_out is not None else 1)
+    rt = []
+    for i in range(rank):
+        t = ctx.int(f"rt{i}")
+        ctx.assume(t >= 0)
+        rt.append(t)
+
+    def annot(tag, r):
+        if r is None:
+            return None
+        dims = []
+        for i in range(r):
+            k = ["int", "N", "M", "unknown"][ctx.choose(4, f"kind of {tag}[{i}]")]
+            if k == "unknown":
+                dims.append(ir.SymbolicDim(None))
+            elif k == "int":
+                t = ctx.int(f"{tag}{i}")
+                ctx.assume(t >= 0)
+                dims.append(SInt(t))
+                if i < len(rt):
+                    ctx.assume(t == rt[i])       # annotation soundness
+            else:
+                dims.append(k)
+                if i < len(rt):
+                    ctx.assume(Rho(z3.StringVal(k)) == rt[i])
+        return dims
+    d_in, d_out = annot("in", r_in), annot("out", r_out)
+    sound_ranks = (r_in is None or r_in == rank) and (r_out is None or r_out == rank)
+    x = W.value("x", dims=d_in, rt=rt, dtype=None)
+    node = W.node("Identity", [x])
+    y = node.fields["outputs"][0]
+    y.fields["shape"] = W.shape(d_out) if d_out is not None else None
+    y.fields["type"] = "T_out"
+    try:
+        r = run_eval(I, _cf().identity, node, OpRecorder(), state)
+    except PyRaise as e:
+        ctx.check("C04.folding.identity.never_raises", False, CL04)
+        return
+    ctx.check("C03.folding.identity.node_is_kept", r is None, CL09)
+    if not sound_ranks:
+        ctx.cover("identity.inconsistent annotations (not a sound model)")
+        return
+    sh = x.fields["shape"]
+    if sh is not None:
+        dims = W.dims_of(sh)
+        ctx.check("C09.folding.identity.merged_input_shape_has_the_runtime_rank", len(dims) == rank, CL09)
+        if len(dims) == rank:
+            for d, t in zip(dims, rt):
+                m = W.mean(d)
+                if m is None:
+                    continue
+                ctx.check("C09.folding.identity.merged_input_dim_is_the_runtime_dim_for_every_binding", m == t, CL09)
+    else:
+        ctx.check("C09.folding.identity.shape_stays_unknown_only_if_neither_side_is_annotated", d_in is None and d_out is None, CL09)
+    ctx.check("C03.folding.identity.input_type_filled_from_the_output", x.fields["type"] == "T_out", CL09)
+    sv = I.call(I.getattr(state, "get_sym_value"), [y])
+    ctx.check("C03.folding.identity.output_recorded_as_alias_of_the_input", sv is x, CL09)
+
+
+def s_propagate(ctx, which):
+    """Reshape (kept) / Squeeze / Unsqueeze: the output carries the VALUES of input 0, so only input 0's shape value
+    may be propagated to it."""
+    import onnx_ir as ir
+    I = Interp(ctx)
+    W = World(I)
+    state = new_state(I)
+    x, elems, how = shape_like_value(ctx, W, I, state, "x", max_len=2)
+    s, selems, show = shape_like_value(ctx, W, I, state, "aux", max_len=2)
+    node = W.node(which, [x, s])
+    try:
+        r = run_eval(I, getattr(_cf(), which.lower()), node, OpRecorder(), state)
+    except PyRaise as e:
+        ctx.check(f"C04.folding.{which.lower()}.never_raises", False, CL04)
+        return
+    if r is not None:
+        ctx.cover(f"{which}.replaced")
+        return
+    out = node.fields["outputs"][0]
+    sv = I.call(I.getattr(state, "get_sym_value"), [out])
+    if sv is None:
+        return
+    ok = elems is not None and isinstance(sv, (SObj, ir.Shape))
+    ctx.check(f"C09.folding.{which.lower()}.propagates_only_the_shape_value_of_input_0", ok, CL09)
+    if ok:
+        dims = W.dims_of(sv)
+        ctx.check(f"C09.folding.{which.lower()}.propagated_value_has_the_same_entries", len(dims) == len(elems), CL09)
+        if len(dims) == len(elems):
+            for d, t in zip(dims, elems):
+                m = W.mean(d)
+                if m is None:
+                    continue
+                ctx.check(f"C09.folding.{which.lower()}.propagated_entry_is_the_entry_of_input_0", m == t, CL09)
+
+
+# ------------------------------------------------------------------ dropout --------------------
+
+def s_dropout(ctx):
+    """Dropout -> Identity (+ all-true mask) only in inference mode or with ratio 0."""
+    import onnx_ir as ir
+    I = Interp(ctx)
+    W = World(I)
+    state = new_state(I)
+    x = W.value("x", dims=None, rt=[], dtype=ir.DataType.FLOAT)
+    n_in = 1 + ctx.choose(3, "number of inputs")
+    ratio_kind = ["absent", "const", "unknown", "vector"][ctx.choose(4, "ratio")] if n_in >= 2 else "absent"
+    ratio_t = None
+    ins = [x]
+    if n_in >= 2:
+        if ratio_kind == "absent":
+            ins.append(None)
+        elif ratio_kind in ("const", "vector"):
+            ratio_t = ctx.int("ratio_num")   # ratio as an integer-valued stand-in: only ==0 matters
+            ctx.witness["ratio_num"] = ratio_t
+            items = [SInt(ratio_t)] if ratio_kind == "const" else [SInt(ratio_t), SInt(ratio_t)]
+            ins.append(W.value("ratio", dims=[], rt=[], dtype=ir.DataType.FLOAT, const=W.tensor(items, ir.DataType.FLOAT, ndim=0 if ratio_kind == "const" else 1), initializer=True))
+        else:
+            ins.append(W.value("ratio", dims=[], rt=[], dtype=ir.DataType.FLOAT))
+    tm_kind = "absent"
+    if n_in >= 3:
+        tm_kind = ["absent", "true", "false", "unknown", "graph_input_default_false"][ctx.choose(5, "training_mode")]
+        if tm_kind == "absent":
+            ins.append(None)
+        elif tm_kind in ("true", "false"):
+            ins.append(W.value("tm", dims=[], rt=[], dtype=ir.DataType.BOOL, const=W.tensor([tm_kind == "true"], ir.DataType.BOOL, ndim=0), initializer=True))
+        elif tm_kind == "graph_input_default_false":
+            ins.append(W.value("tm", dims=[], rt=[], dtype=ir.DataType.BOOL, const=W.tensor([False], ir.DataType.BOOL, ndim=0), initializer=True, graph_input=True))
+        else:
+            ins.append(W.value("tm", dims=[], rt=[], dtype=ir.DataType.BOOL))
+    n_out = 1 + ctx.choose(2, "mask output present")
+    node = W.node("Dropout", ins, outputs=n_out)
+    I.models[ir.tensor] = lambda interp, v, *a, **k: ("tensor", tuple(v))
+    op = OpRecorder()
+    try:
+        r = run_eval(I, _cf().dropout, node, op, state)
+    except PyRaise as e:
+        ctx.check("C04.folding.dropout.never_raises", False, CL04)
+        return
+    if r is None:
+        ctx.cover("dropout.kept")
+        return
+    inference = tm_kind in ("absent", "false")
+    zero_ratio = ratio_kind == "const" and ratio_t is not None
+    if inference:
+        ctx.check("C03.folding.dropout.identity_in_inference_mode", True, "C03")
+    else:
+        ok = zero_ratio
+        ctx.check("C03.folding.dropout.in_training_mode_identity_only_for_a_known_scalar_ratio", ok,
+                  "C03: 'optimize ... produces the same outputs' — training-mode Dropout is random unless ratio == 0")
+        if ok:
+            ctx.check("C03.folding.dropout.in_training_mode_identity_only_for_ratio_zero", ratio_t == 0, "C03")
+    y = r[0] if isinstance(r, tuple) else r
+    ctx.check("C03.folding.dropout.output_is_identity_of_the_data_input", is_identity_of(y, x), "C03")
+    ctx.check("C03.folding.dropout.as_many_results_as_outputs", (isinstance(r, tuple) and len(r) == 2) == (n_out == 2), "C04: 'same interface'")
+    if isinstance(r, tuple) and len(r) == 2:
+        m = r[1]
+        okm = isinstance(m, Call) and m.op == "ConstantOfShape" and len(m.args) == 1 and isinstance(m.args[0], Call) and m.args[0].op == "Shape" \
+            and m.args[0].args == (x,) and not m.args[0].kwargs and m.kwargs.get("value") == ("tensor", (True,))
+        ctx.check("C03.folding.dropout.mask_is_all_true_of_the_input_shape", okm, "C03: Dropout's mask output is all true when nothing is dropped")
+
+
+SCENARIOS += [
+] + [
+    Scenario(f"C09.folding.concat[{'data' if m == 0 else 'shape-like'} x{n}]", _mk(s_concat, m, n), F("concat", "concat.has_zero_size", "_get_int_attribute", "OptimizerState.get_shape_value"),
+             kind="bounded", bound="1-3 operands (with 3: ranks <= 1, one element); " + BOUND, trusted=TRUST + ["ONNX Concat: operands agree on every dim but the axis"], max_paths=60000)
+    for m in (0, 1) for n in (1, 2, 3)
+] + [
+    Scenario("C09.folding.identity", s_identity, F("identity", "_merge_shapes", "_merge_shapes.merge_dims"),
+             kind="bounded", bound=BOUND, trusted=TRUST),
+    Scenario("C09.folding.propagate.reshape", _mk(s_propagate, "Reshape"), F("reshape", "_propagate_shape_value"), kind="bounded", bound=BOUND, trusted=TRUST),
+    Scenario("C09.folding.propagate.squeeze", _mk(s_propagate, "Squeeze"), F("squeeze", "_propagate_shape_value"), kind="bounded", bound=BOUND, trusted=TRUST),
+    Scenario("C03.folding.dropout", s_dropout, F("dropout", "dropout.optimized_dropout", "_get_bool_value", "_get_numpy_value"),
+             trusted=["ONNX Dropout: inference mode (training_mode absent or false) and ratio 0 copy the input and give an all-true mask"]),
+]
